@@ -92,6 +92,9 @@ class FileHeaderConfig:
     # Enforce atemporal language checking
     enforce_atemporal: bool = True
 
+    # Whether the linter runs at all
+    enabled: bool = True
+
     # Patterns to ignore (file paths)
     ignore: list[str] = field(
         default_factory=lambda: ["test/**", "**/migrations/**", "**/__init__.py"]
@@ -121,6 +124,7 @@ class FileHeaderConfig:
                 required_fields_markdown=required_fields,
                 required_fields_css=required_fields,
                 enforce_atemporal=config_dict.get("enforce_atemporal", True),
+                enabled=config_dict.get("enabled", True),
                 ignore=config_dict.get("ignore", defaults.ignore),
             )
 
@@ -136,5 +140,6 @@ class FileHeaderConfig:
             ),
             required_fields_css=required_fields.get("css", defaults.required_fields_css),
             enforce_atemporal=config_dict.get("enforce_atemporal", True),
+            enabled=config_dict.get("enabled", True),
             ignore=config_dict.get("ignore", defaults.ignore),
         )
